@@ -37,6 +37,9 @@ type Result struct {
 	Evals int
 	// NTKeys, when set, are the identities of the distinct non-trivial sub-cases.
 	NTKeys []string
+	// Replay, when set, is the concrete scenario that failed (e.g. the base scenario plus the
+	// fault placement found by an enumeration); it becomes the replay file.
+	Replay *world.Scenario
 }
 
 func NewResult() *Result { return &Result{Labels: map[string]int{}} }
